@@ -561,6 +561,8 @@ func (cr *concRun) clientMain(c *concClient) {
 }
 
 func (cr *concRun) execOp(op *Op) (out concOut) {
+	callBegin()
+	defer callEnd()
 	defer func() {
 		if r := recover(); r != nil {
 			out.Err = "panic: " + firstLine(fmt.Sprint(r))
